@@ -18,6 +18,11 @@ pub fn cheap_from(e: crate::errors::Error) -> io::Error {
     io::Error::from(io::ErrorKind::Other)
 }
 
+/// ghost: last absolute seek target / number of seeks of ANY `Abs` (readable when the stream is
+/// hidden behind a trait object)
+pub static mut LAST_SEEK_TARGET: u64 = 0;
+pub static mut SEEKS: u32 = 0;
+
 /// Abstract seekable stream: a length and a position, no data.
 /// `seek` follows `std::io::Cursor`: any non-negative target is accepted (also beyond `len`);
 /// a negative or overflowing target is an `InvalidInput` error when `strict` is set, and is
@@ -72,6 +77,10 @@ impl Seek for Abs {
         self.pos = np as u64;
         self.seeks += 1;
         self.last_target = self.pos;
+        unsafe {
+            LAST_SEEK_TARGET = self.pos;
+            SEEKS += 1;
+        }
         Ok(self.pos)
     }
 }
@@ -93,6 +102,9 @@ impl Read for Abs {
         Ok(n)
     }
 }
+
+/// ghost mirror of the remaining length of the (single) `AbsSrc` of a harness
+pub static mut ABSSRC_LEFT: u64 = 0;
 
 /// Abstract forward-only source for the fail-safe readers: `left` bytes remain; each `read`
 /// returns everything that fits, or — with `short_reads` — any count in 1..=fit.
@@ -126,6 +138,7 @@ impl Read for AbsSrc {
             fit
         };
         self.left -= n;
+        unsafe { ABSSRC_LEFT = self.left };
         self.given += n;
         self.reads += 1;
         Ok(n as usize)
